@@ -153,6 +153,13 @@ def judge_line(ctx, srv, model, f, text, line1, col, klass, info, files, tag, de
                     and ctx.known(KF_NESTED):
                 ctx.count("kf_nested_test_def_line")
                 return
+            if klass == "none" and tag == "typing":
+                lines_ = text.split("\n")
+                above = lines_[max(0, line1 - 11):line1]
+                unfiltered = {n for n, (g, c) in expected_items(model, f, None, filtered=False).items()}
+                if any("usefixtures(" in l for l in above) and {i["label"] for i in items} == unfiltered and ctx.known(KF_PAREN):
+                    ctx.count("kf_paren_count")
+                    return
             ctx.violation({"kind": "completion-offered-outside-requestable-context", "class": klass, "tag": tag,
                            "line": text.split("\n")[line1 - 1][:60]},
                           {"line1": line1, "labels": [i["label"] for i in items][:8]}, files=files)
@@ -195,7 +202,9 @@ def judge_line(ctx, srv, model, f, text, line1, col, klass, info, files, tag, de
             j -= 1
         fixture_like = [d_ for d_ in decos if "fixture" in d_]
         recognised = [d_ for d_ in fixture_like if "pytest.fixture" in d_ or d_.startswith("@fixture")]
-        if fixture_like and not recognised and not got and ctx.known(KF_SPELLING):
+        fn_name = lines_[k_].strip().split("def ", 1)[-1].split("(")[0] if k_ >= 0 else ""
+        as_test = {n for n, (g, c) in expected_items(model, f, None, declared=set(func_override[3]) if func_override else set()).items()}
+        if fixture_like and not recognised and (not got or (fn_name.startswith("test_") and got == as_test)) and ctx.known(KF_SPELLING):
             ctx.count("kf_decorator_spelling")
             return
     if not (must <= got <= must | may):
